@@ -4,7 +4,7 @@
 From Coq Require Import ZArith Bool List Sorting.Sorted.
 Import ListNotations.
 From Verif Require Import Model.Val Gen.Src_Time Proofs.TimeP Model.Release
-  Proofs.ReleaseP1 Proofs.ReleaseP2 Proofs.ReleaseP3 Proofs.ReleaseP4 Proofs.ReleaseP5.
+  Proofs.ReleaseP1 Proofs.ReleaseP2 Proofs.ReleaseP3 Proofs.ReleaseP4 Proofs.ReleaseP5 Proofs.ReleaseP6 Proofs.ReleaseP7.
 Open Scope Z_scope.
 
 (* ---- fixed: N releases one period apart from the start *)
@@ -102,6 +102,41 @@ Theorem C19_fuzz_contract_satisfiable : forall t minv maxv, 0 <= t ->
   uniform_contract t minv maxv (mkF (var_lo t minv maxv) 0) = true.
 Proof. exact uniform_contract_sat. Qed.
 Print Assumptions C19_fuzz_contract_satisfiable.
+
+(* every task of an instantiated graph has the deadline release + completion_time (critical path, SLOs where declared)
+   stretched within the declared variance and clamped to the bounds; the draw used is the SECOND uniform value *)
+Theorem C19_deadline : forall jg f release index next us_ tg next' us' ct minv maxv,
+  generate_task_graph jg f release index next us_ = Ok (tg, next', us') ->
+  completion_time jg = Ok ct ->
+  Z.abs (et_time ct) < 2 ^ 53 ->
+  (forall u, nth_error us_ 1 = Some u -> uniform_contract (et_time ct) minv maxv u = true) ->
+  Z.abs (et_time ct + clampZ (if_minb f) (if_maxb f) (var_lo (et_time ct) minv maxv)) <= 2 ^ 53 ->
+  Z.abs (et_time ct + clampZ (if_minb f) (if_maxb f) (var_hi (et_time ct) minv maxv)) <= 2 ^ 53 ->
+  Forall (fun t =>
+    us release + et_time ct + clampZ (if_minb f) (if_maxb f) (var_lo (et_time ct) minv maxv) <= us (t_deadline t)
+    <= us release + et_time ct + clampZ (if_minb f) (if_maxb f) (var_hi (et_time ct) minv maxv)) (tg_tasks tg).
+Proof. exact deadline_within_bounds. Qed.
+Print Assumptions C19_deadline.
+Theorem C19_completion_time_in_us : forall jg ct, completion_time jg = Ok ct -> et_unit ct = U_US.
+Proof. exact completion_time_us. Qed.
+Print Assumptions C19_completion_time_in_us.
+
+(* ---- each invocation is a fresh copy of the job graph (statement at the level of the mapping handed to
+   TaskGraph(...): Graph.__init__ = graph_of_mapping is the generic constructor; that its result has the
+   mapping's shape is checked by S-instantiate / M-iso, not proved here -> "partial" for the last step) *)
+Theorem C19_instantiation_fresh_copy_partial : forall jg f release index next us_ tg next' us' order,
+  generate_task_graph jg f release index next us_ = Ok (tg, next', us') ->
+  g_bfs (jg_graph jg) = Ok order -> NoDup order ->
+  (forall kv, In kv (g_ch (jg_graph jg)) -> In (fst kv) order /\ forall c, In c (snd kv) -> In c order) ->
+  NoDup (map fst (g_ch (jg_graph jg))) ->
+  (forall i i', In i order -> In i' order -> name_of jg i = name_of jg i' -> i = i') ->
+  let task_id i := next + index_of i order in
+  next' = next + Z.of_nat (length order) /\
+  (forall i, In i order -> next <= task_id i < next') /\
+  (forall i i', In i order -> In i' order -> task_id i = task_id i' -> i = i') /\
+  graph_of_mapping (map (fun kv => (task_id (fst kv), map task_id (snd kv))) (g_ch (jg_graph jg))) = Ok (tg_graph tg).
+Proof. exact instantiation_is_fresh_copy. Qed.
+Print Assumptions C19_instantiation_fresh_copy_partial.
 
 (* ---- monitors = statements *)
 Theorem C19_mon_fixed : forall s per n obs, mon_fixed s per n obs = true <-> map us_time obs = fixed_spec s per n.
